@@ -793,6 +793,10 @@ func (it *k4interp) eval1(fr *k4frame, v ssa.Value) (k4val, error) {
 		if a.kind == 3 && b.kind == 3 && (x.Op == token.EQL || x.Op == token.NEQ) && ((a.addr && b.s == "nil" && !b.addr) || (b.addr && a.s == "nil" && !a.addr)) {
 			return k4val{kind: 1, b: x.Op == token.NEQ}, nil
 		}
+		// a freshly made error (fmt.Errorf / errors.New) compared with nil
+		if a.kind == 3 && b.kind == 3 && (x.Op == token.EQL || x.Op == token.NEQ) && ((isFreshErrorTerm(a.s) && b.s == "nil" && !b.addr) || (isFreshErrorTerm(b.s) && a.s == "nil" && !a.addr)) {
+			return k4val{kind: 1, b: x.Op == token.NEQ}, nil
+		}
 		if isBoolT(x.Type()) {
 			// `X != Y` on opaque operands is the negation of the atom `X == Y`
 			// (so a rewritten `err != nil` needs no second model entry)
@@ -1506,4 +1510,10 @@ func isSnapshotKey(k string) bool {
 		i++
 	}
 	return i > 1 && i < len(k) && (k[i] == '.' || k[i] == '[')
+}
+
+// isFreshErrorTerm: the opaque term is the result of a standard error
+// constructor, which never returns nil.
+func isFreshErrorTerm(s string) bool {
+	return strings.HasPrefix(s, "fmt.Errorf(") || strings.HasPrefix(s, "errors.New(")
 }
